@@ -63,7 +63,10 @@ def one_case(rng, tier):
         # input stops by the node being disconnected from its upstream (possibly while the consumer is still busy with an
         # earlier element): what it has received by then must still come out
         prods[0].append([rng.choice([0, 0, -1, -2, 0.25, 0.5]), '!disconnect', [feeder, 'lt'], 0])
-    return {'prog': prog, 'producers': prods, 'awaiting': rng.random() < 0.5}
+    case = {'prog': prog, 'producers': prods, 'awaiting': rng.random() < 0.5}
+    if rng.random() < 0.2:
+        case['t0'] = 1.7e9          # a clock that reads like time.time(), not like a stopwatch
+    return case
 
 
 def check_case(case, counters, sets):
